@@ -14,6 +14,10 @@ COMMON = r'''
 #[derive(Debug, Clone, PartialEq)] struct Em(String);
 impl assert_struct::Like<Dom> for Em { fn like(&self, d: &Dom) -> bool { self.0.ends_with(d.0) } }
 #[derive(Debug, Clone, PartialEq)] struct TwoR { s: String, e: Em, n: i32 }
+/// a collection wrapper that DEREFS to a Vec and has an AsRef impl of its own to something that is no slice
+#[derive(Debug, Clone, PartialEq)] struct RawV(Vec<i32>);
+impl std::ops::Deref for RawV { type Target = Vec<i32>; fn deref(&self) -> &Vec<i32> { &self.0 } }
+impl AsRef<str> for RawV { fn as_ref(&self) -> &str { "raw" } }
 '''
 
 # target types: (rust type, value expression, [(form name, matching pattern, non-matching pattern)])
@@ -76,6 +80,8 @@ TARGETS = {
     "rc_string": ("std::rc::Rc<String>", "std::rc::Rc::new(\"hello\".to_string())", [("rc_regex", "=~ r\"^he\"", "=~ r\"^je\""), ("rc_like", "=~ pat", "=~ nopat")]),
     "box_string": ("Box<String>", "Box::new(\"hello\".to_string())", [("bx_regex", "=~ r\"^he\"", "=~ r\"^je\"")]),
     "u8": ("u8", "b'a'", [("byte_lit", "b'a'", "b'b'"), ("byte_int", "97", "98"), ("byte_range", "b'a'..=b'z'", "b'A'..=b'Z'")]),
+    # a user wrapper that derefs to a Vec (and has an unrelated AsRef impl): slice forms must find the Vec behind it in every position
+    "deref_vec": ("RawV", "RawV(vec![1, 2, 3])", [("dv_slice", "[1, 2, 3]", "[1, 2]"), ("dv_rest", "[1, ..]", "[2, ..]"), ("dv_any", "[..]", None)]),
     "opt_string": ("Option<String>", "Some(\"hello\".to_string())", [("some_str", "Some(\"hello\")", "Some(\"jello\")"), ("some_regex", "Some(=~ r\"^he\")", "Some(=~ r\"^je\")"),
                                                                         ("closure_opt", "|cl_o| cl_o.is_some()", "|cl_o| cl_o.is_none()"), ("some_closure", "Some(|cl_s| cl_s.len() == 5)", "Some(|cl_s| cl_s.is_empty())")]),
 }
